@@ -15,8 +15,8 @@ d) transform_where_clause_for_event_type (used by the per-type sub-query push-do
    Followed through same-module helpers and Option::map-style closures, so extracting the leaf rewrite into a helper is not reported.
 c) match_sequences tests `all_matches.len() >= limit` before processing a group and truncates after extending (LIMIT bounds the number of matched sequences).
 """
-FLOOR = 6
-REQUIRED = ["C15.a1", "C15.a2", "C15.a3", "C15.b", "C15.c", "C15.d"]
+FLOOR = 11
+REQUIRED = ["C15.a1", "C15.a2", "C15.a3", "C15.b", "C15.c", "C15.d", "C15.e", "C15.f", "C15.g", "C15.h", "C15.i"]
 
 
 def run(ctx):
@@ -197,6 +197,224 @@ def run(ctx):
                 bad.append(("link-table:%s" % v, "SequenceLink::%s is matched by %s" % (v, got), None))
         return bad
     ctx.run("C15.b", "K6 TABLE", "SequenceMatcher::match_in_group", "each link kind uses its own matcher", b_)
+
+    def f_(inst):
+        """Times are signed (events before 1970 have negative epoch seconds). The matcher and the grouper order rows by the i64 the
+        accessor returns; casting it to u64 makes every negative time sort after all others and breaks the sorted precondition
+        of the two-pointer walk."""
+        bad = []
+        n = 0
+        for k in sorted(F.keys()):
+            if not re.search(r"^engine::core::read::sequence::(matcher|group)::", k) or k.startswith("bin:") or "_test" in k or "::tests::" in k:
+                continue
+            b = F.fn_exact(k)
+            for c in b.calls:
+                if not c.cleanup and c.nname.endswith("get_i64_at"):
+                    n += 1
+            for i in sorted(b.live_blocks()):
+                for st in b.blocks[i]["s"]:
+                    v = st.get("v")
+                    if not (v and v.get("r") == "cast" and len(st.get("a", [])) == 1 and b.local_ty(st["a"][0]) in ("u64", "usize", "u32")):
+                        continue
+                    pl = v["o"].get("m") or v["o"].get("c")
+                    if not pl or b.local_ty(pl[0]) != "i64":
+                        continue
+                    L = b.origins(v["o"])
+                    src = [l for l in L if l[0] == "call" and norm_path(l[1]).endswith("get_i64_at")]
+                    # the time lane: read with the configured time field (self.time_field) or the literal "timestamp"
+                    for l in src:
+                        c = b.call_at(l[2])
+                        fl = b.origins(c.args[1]) if len(c.args) > 1 else []
+                        if any((x[0] in ("param", "upvar") and len(x) > 2 and ".time_field" in x[2]) or (x[0] == "const" and "timestamp" in str(x[1])) for x in fl):
+                            bad.append(("time-cast-unsigned:%s" % k.split("::{closure")[0].split("::")[-1], "%s casts the i64 time of a row to an unsigned integer: a time before 1970 sorts after every other time" % k.split("::")[-1], sp(b, i)))
+        if n < 3:
+            raise AnchorMissing("get_i64_at reads in sequence::matcher / sequence::group (found %d)" % n)
+        inst.sites.append("%d get_i64_at reads in sequence::{matcher,group}" % n)
+        return bad
+    ctx.run("C15.f", "K7 PROV", "sequence::matcher / sequence::group time reads", "row times are ordered as signed values", f_)
+
+    def g_(inst):
+        """The per-type sub-query results reach the grouper as text zones: batches_to_zones renders every cell through
+        scalar_to_string, which spells NULL as a marker text. A row without a link value must not be grouped (`same value of k`):
+        extract_link_value has to treat that marker - and the empty text a flushed NULL string comes back as - as `no value`."""
+        bad = []
+        st_ = F.fn("sequence::utils::scalar_to_string")
+        sw = param_enum_switches(st_, r"ScalarValue$", "value")
+        if not sw:
+            raise AnchorMissing("match on the ScalarValue in scalar_to_string")
+        a = arms(st_, sw[0][0])
+        markers = set()
+        for c in st_.calls:
+            if not c.cleanup and c.bb in a.get("Null", set()):
+                for x in c.args:
+                    if "k" in x and str(x["k"]).startswith('"'):
+                        markers.add(x["k"].strip('"'))
+        for i in a.get("Null", set()):
+            for s2 in st_.blocks[i]["s"]:
+                v = s2.get("v")
+                if v and v.get("r") == "use" and "k" in v["o"] and str(v["o"]["k"]).startswith('"'):
+                    markers.add(v["o"]["k"].strip('"'))
+        if not markers:
+            inst.sites.append("scalar_to_string has no text for Null: rule vacuous")
+            return bad
+        g = F.fn("ColumnarGrouper::extract_link_value")
+        gs = [c for c in g.calls if not c.cleanup and c.nname.endswith("get_str_at") and any(x[0] == "param" and len(x) > 2 and ".link_field" in x[2] for x in g.origins(c.args[1]))]
+        if len(gs) != 1:
+            raise AnchorMissing("get_str_at(self.link_field) in extract_link_value (%d)" % len(gs))
+        val = {l for l, _ in g.flow_forward(gs[0].dest)}
+        somes = [bb for (bb, j, v, dst) in g.aggregates("option::Option", "Some") if g.dominates_edge((gs[0].bb, gs[0].to), bb) and
+                 any(x[0] == "call" and x[2] == gs[0].bb for o in v["o"] for x in g.origins(o, transparent=re.compile(r"to_string$|to_owned$|String::from$|Into>::into$|ScalarValue::Utf8|clone$")))]
+        if not somes:
+            somes = [bb for (bb, j, v, dst) in g.aggregates("option::Option", "Some") if g.dominates_edge((gs[0].bb, gs[0].to), bb) and bb in set(g.reach(0, src_edges=variant_edge(g, gs[0], "Some")))]
+        if not somes:
+            raise AnchorMissing("Some(Utf8(link text)) in extract_link_value")
+        inst.sites += ["NULL marker(s) of scalar_to_string: %s" % sorted(markers), sp(g, gs[0].bb)]
+        for mk in sorted(markers):
+            eqs = [c for c in g.calls if not c.cleanup and re.search(r"::eq$", c.nname) and any(x[0] == "const" and x[1].strip('"') == mk for a_ in c.args for x in g.origins(a_))
+                   and any(x[0] == "call" and x[2] == gs[0].bb for a_ in c.args for x in g.origins(a_))]
+            cut = [e for c in eqs for e in bool_result_edge(g, c, False)]
+            for sb in somes:
+                if not cut or sb in set(g.reach(0, cut_edges=cut)):
+                    bad.append(("null-marker-is-a-link-value", "extract_link_value returns the NULL marker text %r as a link value: rows without a link value are grouped with each other (differently per placement)" % mk, sp(g, sb)))
+                    break
+        emp = [c for c in g.calls if not c.cleanup and c.nname.endswith("str::is_empty") and any(x[0] == "call" and x[2] == gs[0].bb for x in g.origins(c.args[0]))]
+        cut = [e for c in emp for e in bool_result_edge(g, c, False)]
+        for sb in somes:
+            if not cut or sb in set(g.reach(0, cut_edges=cut)):
+                bad.append(("empty-text-is-a-link-value", "extract_link_value returns the empty text as a link value: a flushed NULL string comes back as \"\" and such rows are grouped with each other", sp(g, sb)))
+                break
+        return bad
+    ctx.run("C15.g", "K11 SIB + K8 GUARD", "sequence::utils::scalar_to_string / ColumnarGrouper::extract_link_value", "a row without a link value is not grouped", g_)
+
+    def h_(inst):
+        """FOLLOWED BY accepts `the same time`, so with the same event type on both sides (both pointers walk the same rows) the
+        row itself satisfies ts_b >= ts_a. A pair may be recorded only when the event types differ or the two rows differ."""
+        bad = []
+        P = F.fn("SequenceMatcher::match_followed_by")
+        push = [c for c in P.find_calls(r"Vec::push$") if "MatchedSequenceIndices" in P.local_ty((c.args[1].get("m") or c.args[1].get("c"))[0])]
+        if len(push) != 1:
+            raise AnchorMissing("results.push(MatchedSequenceIndices) in match_followed_by (%d)" % len(push))
+        ty_eq = [c for c in P.calls if not c.cleanup and re.search(r"::(eq|ne)$", c.nname) and len(c.args) == 2 and
+                 {x[1] for a_ in c.args for x in P.origins(a_) if x[0] == "param"} >= {"event_type_a", "event_type_b"}]
+        gts = calls(P, r"SequenceMatcher::get_timestamp$", 2)
+        rows = [P._origin_locals(c.args[2]) for c in gts]
+        row_eq = [c for c in P.calls if not c.cleanup and re.search(r"::(eq|ne)$", c.nname) and len(c.args) == 2 and c not in ty_eq and
+                  sum(1 for a_ in c.args if any(P._origin_locals(a_) & r for r in rows)) == 2]
+        cut = []
+        for c in ty_eq + row_eq:
+            cut += bool_result_edge(P, c, c.nname.endswith("::ne"))
+        inst.sites += [sp(P, c.bb) for c in ty_eq + row_eq]
+        if not cut or push[0].bb in set(P.reach(0, cut_edges=cut)):
+            bad.append(("self-successor", "match_followed_by can record a pair without having established that the two event types or the two rows differ: with A FOLLOWED BY A every event is paired with itself", sp(P, push[0].bb)))
+        return bad
+    ctx.run("C15.h", "K2 CUT", "SequenceMatcher::match_followed_by", "an event is not its own successor", h_)
+
+    def i_(inst):
+        """The per-type sub-queries of a sequence query must deliver the link field and the sequence time field whatever RETURN
+        lists: the merger groups on one and orders on the other."""
+        bad = []
+        b = F.fn("SequenceStreamingDispatcher::create_sub_query")
+        ag = [(bb, v) for (bb, j, v, dst) in b.aggregates("command::types::Command", "Query")]
+        if len(ag) != 1:
+            raise AnchorMissing("the Command::Query built by create_sub_query (%d)" % len(ag))
+        bb, v = ag[0]
+        o = dict(zip(v.get("fields", []), v["o"])).get("return_fields")
+        if o is None:
+            raise AnchorMissing("return_fields of the sub-query")
+        L = b.origins(o)
+        inst.sites.append(sp(b, bb))
+        if all(l[0] == "agg" and l[1].endswith("Option::None") for l in L):
+            inst.sites.append("sub-queries return every field")
+            return bad
+        fields = set()
+        for l_ in wide_all(b, o) | deep_locals(b, o.get("m") or o.get("c"), wide=True):
+            for x in b.origins({"c": [l_]}):
+                if x[0] in ("param", "upvar") and len(x) > 2 and x[2]:
+                    fields.add(x[2][-1] if not x[2][-1].startswith("@") and x[2][-1] not in (".0",) else next((e for e in reversed(x[2]) if e.startswith(".") and e != ".0"), ""))
+        inst.sites.append("sub-query return_fields derives from base fields %s" % sorted(f for f in fields if f))
+        for need in (".link_field", ".sequence_time_field"):
+            if need not in fields:
+                bad.append(("sub-query-return-hides:%s" % need[1:], "create_sub_query builds the sub-query's RETURN list without the base query's %s: with RETURN [...] the column the sequence merger needs is projected away and no pair is found" % need[1:], sp(b, bb)))
+        return bad
+    ctx.run("C15.i", "K7 PROV", "SequenceStreamingDispatcher::create_sub_query", "RETURN never hides the link / time column from the matcher", i_)
+
+    def e_(inst):
+        """Two-pointer discipline. Both matchers walk two time-sorted row lists with one pointer each. On an arm of the a-vs-b
+        time comparison that records no pair (a `no-match arm`), the only pointer that may advance is the one of the side whose
+        time is the lesser (or equal) one under that arm's condition: advancing the other side throws away a row that later rows
+        of the first side still need (PRECEDED BY lost every match after the first anchor without an earlier partner)."""
+        bad = []
+        n_arms = 0
+        for name in ("SequenceMatcher::match_followed_by", "SequenceMatcher::match_preceded_by"):
+            P = F.fn(name)
+            short = name.split("::")[-1]
+            push = [c for c in P.find_calls(r"Vec::push$") if "MatchedSequenceIndices" in P.local_ty((c.args[1].get("m") or c.args[1].get("c"))[0])]
+            if not push:
+                raise AnchorMissing("results.push(MatchedSequenceIndices) in %s" % name)
+            # self-increments: x = (x + 1).0
+            incs = {}
+            for i in P.live_blocks():
+                for st in P.blocks[i]["s"]:
+                    v = st.get("v")
+                    if v and v.get("r") == "bin" and v.get("op") in ("AddWithOverflow", "Add") and "k" in v["b"] and str(v["b"]["k"]).startswith("1_"):
+                        src = (v["a"].get("c") or v["a"].get("m") or [None])[0]
+                        tmp = st["a"][0]
+                        # where does tmp.0 go?
+                        for i2 in P.live_blocks():
+                            for st2 in P.blocks[i2]["s"]:
+                                v2 = st2.get("v")
+                                if v2 and v2.get("r") == "use" and (v2["o"].get("m") or v2["o"].get("c") or [None])[0] == tmp and st2["a"] == [src]:
+                                    incs.setdefault(src, []).append(i2)
+            roots = set(incs)
+
+            def ptrs_of_ts(op):
+                out = set()
+                for l in P.origins(op):
+                    if l[0] == "call" and "get_timestamp" in l[1]:
+                        c = P.call_at(l[2])
+                        for rl in P._origin_locals(c.args[2]):
+                            for (bb, j, dpl, rv) in P.defs().get(rl, []):
+                                if rv.get("r") == "ref":
+                                    for e in rv.get("p", []):
+                                        m_ = re.match(r"\[_(\d+)\]$", e) if isinstance(e, str) else None
+                                        if m_:
+                                            out |= (P._origin_locals({"c": [int(m_.group(1))]}) | {int(m_.group(1))}) & roots
+                return out
+            hdrs = set()
+            for i in sorted(P.live_blocks()):
+                if P.blocks[i]["t"]["t"] != "switch":
+                    continue
+                si = P.switch_info(i)
+                d = si.get("def") if si and si["kind"] == "bool" else None
+                if not d or d.get("r") != "bin" or d.get("op") not in ("Lt", "Le", "Gt", "Ge"):
+                    continue
+                pa, pb = ptrs_of_ts(d["a"]), ptrs_of_ts(d["b"])
+                if not pa or not pb or pa & pb:
+                    continue
+                for truth, tgt in ((True, si["true"]), (False, si["false"])):
+                    if tgt is None:
+                        continue
+                    # the arm: blocks reachable from the edge until the comparison is reached again
+                    region = set(P.reach(0, src_edges=[(i, tgt)], cut_blocks=[i]))
+                    if any(c.bb in region for c in push):
+                        continue
+                    op = d["op"]
+                    # which operand is the lesser (or equal) one on this arm
+                    lesser = {("Lt", True): "a", ("Lt", False): "b", ("Le", True): "a", ("Le", False): "b",
+                              ("Gt", True): "b", ("Gt", False): "a", ("Ge", True): "b", ("Ge", False): "a"}[(op, truth)]
+                    lp, gp = (pa, pb) if lesser == "a" else (pb, pa)
+                    n_arms += 1
+                    moved = {r for r, bl in incs.items() if any(x in region for x in bl)}
+                    inst.sites.append("%s: no-match arm %s(%s)=%s @ %s advances %s" % (short, op, "x,y", truth, sp(P, i), sorted(P.local_name(m) or "_%d" % m for m in moved)))
+                    for m in moved:
+                        fam = (P._origin_locals({"c": [m]}) | {m}) & roots
+                        if fam & gp and not fam & lp:
+                            bad.append(("advances-later-side:%s" % short, "%s: on the arm where no pair is recorded (%s is %s) the pointer of the later side (%s) is advanced: the row it skips is the partner later rows of the other side need" % (
+                                short, op, truth, P.local_name(m) or "_%d" % m), sp(P, i)))
+        if n_arms < 2:
+            raise AnchorMissing("no-match arms of the a-vs-b time comparison in the two matchers (found %d)" % n_arms)
+        return bad
+    ctx.run("C15.e", "K9 LOOP", "SequenceMatcher::match_{followed,preceded}_by", "on a no-match arm only the side with the lesser time advances", e_)
 
     def c(inst):
         b = F.fn("SequenceMatcher::match_sequences")
